@@ -28,8 +28,12 @@ def scenario(ctx, i):
     D = int(r.integers(1, 4 if ctx.tier == "quick" else 6))
     N = int(r.integers(max(2 * K, 3), 30 if ctx.tier == "quick" else 120))
     centers = r.normal(0, 4, size=(K, D))
-    x = centers[r.integers(0, K, N)] + r.normal(size=(N, D))
+    x = gen.maybe_int(r, centers[r.integers(0, K, N)] + r.normal(size=(N, D)))
     cent = x[r.choice(N, K, replace=False)] + 0.1 * r.normal(size=(K, D))
+    if r.random() < 0.25:  # initial centroids handed over as an integer-typed array (legal: any array-like of shape (K, D))
+        ci = np.rint(cent).astype(np.int64)
+        if len({tuple(row) for row in ci.tolist()}) == K:
+            cent = ci
     return dict(K=K, D=D, x=x, cent=cent, sizes=gen.random_composition(r, N))
 
 
@@ -206,9 +210,9 @@ def oracle(sc, steps=4, use_dask=False):
     import scipy.spatial.distance as sd
 
     x = np.asarray(sc["x"], dtype=float)
-    sc = dict(sc, x=x, cent=np.asarray(sc["cent"], dtype=float))
+    sc = dict(sc, x=x, cent=np.asarray(sc["cent"]))  # the initial centroids keep the dtype they were given with
     xin = dask_of(sc) if use_dask else x
-    prev_c = sc["cent"]
+    prev_c = np.asarray(sc["cent"], dtype=float)
     prevJ = distortion(x, prev_c)
     for k in range(1, steps + 1):
         crit, cent, amd = fit(sc, xin, k, None)
